@@ -61,6 +61,7 @@ func (eng *Engine) verifyFunction(fn *ssa.Function, c *FuncContract, checkLocks 
 			e.eventVacuity(c)
 			res.Obls = e.obls
 		}
+		res.Obls = append(res.Obls, eng.waitGroupProtocol(fn)...)
 		// attach declarations (sliced per obligation at emission time)
 		for _, o := range res.Obls {
 			o.Lines = append(e.declLines(o), o.Lines...)
@@ -458,6 +459,42 @@ func (e *Exec) eventVacuity(c *FuncContract) {
 // and the field's type is one encoding/json restores by reflection.
 func (eng *Engine) shapeObligations(tag string) []*Obligation {
 	var out []*Obligation
+	for _, d := range eng.specs.Distinct {
+		if tag != "" && !hasTag(d.Tags, tag) {
+			continue
+		}
+		vals := map[string]string{}
+		for _, n := range d.Names {
+			vals[n] = ""
+			for g, c := range eng.constGlobals {
+				if g.Pkg != nil && g.Pkg.Pkg.Name()+"."+g.Name() == n && c.Value != nil {
+					vals[n] = c.Value.ExactString()
+				}
+			}
+			// declared as a constant instead: same thing
+			if i := strings.Index(n, "."); i > 0 && vals[n] == "" {
+				if sp := eng.spkgs[n[:i]]; sp != nil {
+					if c, ok := sp.Pkg.Scope().Lookup(n[i+1:]).(*types.Const); ok {
+						vals[n] = c.Val().ExactString()
+					}
+				}
+			}
+		}
+		for i, a := range d.Names {
+			name := "shape/distinct/" + a
+			o := &Obligation{Name: name, Group: name, Kind: "shape", Func: "shape", Tags: d.Tags, Pos: "-", Solver: "go/ssa", Status: "unsat",
+				Text: a + " is a constant-initialised variable whose value differs from " + strings.Join(append(append([]string{}, d.Names[:i]...), d.Names[i+1:]...), ", ")}
+			if vals[a] == "" {
+				o.Status, o.Text = "sat", o.Text+": it is not (or no longer) initialised once with a constant"
+			}
+			for j, b := range d.Names {
+				if i != j && vals[a] != "" && vals[a] == vals[b] {
+					o.Status, o.Text = "sat", o.Text+": it has the same value as "+b+" ("+vals[a]+")"
+				}
+			}
+			out = append(out, o)
+		}
+	}
 	for _, p := range eng.specs.Persisted {
 		if tag != "" && !hasTag(p.Tags, tag) {
 			continue
